@@ -113,20 +113,27 @@ pub fn extra_names() -> Vec<(Name, &'static str)> {
     (Name::new(b".hidden"), "dot-file (a listing that skips names starting with '.' drops it)"),
     (Name::new(b".a"), "dot-file next to 'a': {a}, {a, .a} and {.a} are three different name sets"),
     (Name::new(b"..x"), "starts with two dots but is neither '.' nor '..'"),
+    (Name::new(b"aa"), "repetition of one letter: {a, aaaa} and {aa, aaa} have equal cardinality and equal concatenation in every listing order"),
+    (Name::new(b"aaa"), "repetition of one letter"),
+    (Name::new(b"aaaa"), "repetition of one letter"),
   ]
 }
 
-/// The extra names form two groups: dot-names (starting with '.') and all others (encoding, case, delimiter, length).
-fn name_group(n: &Name) -> u8 { n.0.first().map_or(0, |b| (*b == b'.') as u8) }
+/// The extra names form three groups: dot-names (starting with '.'), repetitions of the letter 'a', and all others
+/// (encoding, case, delimiter, length).
+fn name_group(n: &Name) -> u8 {
+  if n.0.first() == Some(&b'.') { 1 } else if n.0.len() >= 2 && n.0.iter().all(|b| *b == b'a') { 2 } else { 0 }
+}
 
 /// Name sets over the extra names: every single extra name, every pair of two extra names of the same group, plus
-/// every pair (one of the six ASCII names, one extra name). Smallest first.
+/// every pair (one of the six ASCII names, one extra name; for the repetition group only with the ASCII name `a`).
+/// Smallest first.
 pub fn extra_name_sets(extra: &[Name]) -> Vec<Vec<Name>> {
   let mut sets: Vec<Vec<Name>> = Vec::new();
   for (i, a) in extra.iter().enumerate() {
     sets.push(vec![a.clone()]);
     if MAX_EXTRA_NAMES >= 2 { for b in &extra[i + 1..] { if name_group(a) == name_group(b) { sets.push(vec![a.clone(), b.clone()]); } } }
-    for o in NAME_POOL { sets.push(vec![Name::new(o.as_bytes()), a.clone()]); }
+    for o in NAME_POOL { if name_group(a) != 2 || *o == "a" { sets.push(vec![Name::new(o.as_bytes()), a.clone()]); } }
   }
   for s in sets.iter_mut() { s.sort(); }
   sets.sort_by_key(|s| (s.len(), s.iter().map(|x| x.0.len()).sum::<usize>(), s.clone()));
@@ -137,8 +144,15 @@ const MAX_NAMES: usize = 3;
 /// The two explicit modification instants (whole seconds: representable on every file system).
 const T_SECS: [u64; 2] = [1_000_000_000, 1_500_000_000];
 
-fn instant(mt: u8) -> SystemTime { UNIX_EPOCH + Duration::from_secs(T_SECS[mt as usize]) }
-fn mt_name(mt: u8) -> &'static str { if mt == 0 { "T1" } else { "T2" } }
+/// Third logical instant (index 2): a modification time in the FUTURE, one day after the start of this process
+/// (whole seconds), set explicitly like T1 / T2.
+const MT_FUTURE: u8 = 2;
+fn future_secs() -> u64 {
+  static F: std::sync::OnceLock<u64> = std::sync::OnceLock::new();
+  *F.get_or_init(|| SystemTime::now().duration_since(UNIX_EPOCH).map(|d| d.as_secs()).unwrap_or(2_000_000_000) + 86_400)
+}
+fn instant(mt: u8) -> SystemTime { UNIX_EPOCH + Duration::from_secs(if mt == MT_FUTURE { future_secs() } else { T_SECS[mt as usize] }) }
+fn mt_name(mt: u8) -> &'static str { match mt { 0 => "T1", 1 => "T2", _ => "T_FUTURE" } }
 
 /// Content variant of a file state.
 #[derive(Clone, Copy, PartialEq, Eq, PartialOrd, Ord, Hash, Debug)]
@@ -226,7 +240,7 @@ impl St {
   }
   pub fn from_json(v: &Value) -> Result<St, String> {
     let mt = |v: &Value| -> Result<u8, String> {
-      match v.get("mtime").and_then(|m| m.as_str()) { Some("T1") => Ok(0), Some("T2") => Ok(1), o => Err(format!("bad mtime {:?}", o)) }
+      match v.get("mtime").and_then(|m| m.as_str()) { Some("T1") => Ok(0), Some("T2") => Ok(1), Some("T_FUTURE") => Ok(MT_FUTURE), o => Err(format!("bad mtime {:?}", o)) }
     };
     match v.get("kind").and_then(|k| k.as_str()) {
       Some("absent") => Ok(St::Absent),
@@ -352,6 +366,15 @@ pub fn link_states() -> Vec<St> {
     l(St::File { size: 8193, var: Variant::Base, mt: 1 }),
     l(St::File { size: 8193, var: Variant::LastDiffers, mt: 0 }),
     l(d(&[], 0)), l(d(&[b"a"], 0)), l(d(&[b"a"], 1)), l(d(&[b"a", b"b"], 0)),
+  ]
+}
+
+/// States whose modification time lies in the future (both tiers; base states: all checkers, all partners).
+pub fn future_states() -> Vec<St> {
+  let big = St::File { size: 8193, var: Variant::Base, mt: MT_FUTURE };
+  vec![
+    St::File { size: 0, var: Variant::Base, mt: MT_FUTURE }, big.clone(),
+    St::Dir { names: vec![Name::new(b"a")], mt: MT_FUTURE }, St::Link { target: Box::new(big) },
   ]
 }
 
@@ -1037,7 +1060,7 @@ fn produce_via_writer(ctx: &mut Ctx, unit: &Unit, st: &St, junk_prior: bool) -> 
     let loc = if st.is_link() { &target } else { &path };
     let mut f = io_ctx(File::create(loc), "create junk", loc)?;
     io_ctx(f.write_all(&vec![0xEEu8; if junk_prior { size + 7 } else { 0 }]), "write junk", loc)?;
-    io_ctx(f.set_modified(instant(1 - *mt)), "set_modified (junk)", loc)?;
+    io_ctx(f.set_modified(instant(if *mt == 0 { 1 } else { 0 })), "set_modified (junk)", loc)?;
     if st.is_link() {
       ctx.target_used = true;
       io_ctx(std::os::unix::fs::symlink(&target, &path), "create symbolic link", &path)?;
@@ -1551,6 +1574,8 @@ fn run_enumeration(args: &Args, root: &Path) -> i32 {
   let n_plain = alpha.len();
   let links = link_states();
   alpha.extend(links.iter().cloned()); // symbolic-link states count as base states: all three checkers, all partners
+  let futures = future_states();
+  alpha.extend(futures.iter().cloned()); // so do the states with an mtime in the future
   let mut seq_alpha = match args.tier { Tier::Quick => core_alphabet(), Tier::Thorough => alpha[..n_plain].to_vec() };
   // Two non-UTF-8 single-name directories take part in the sequences as well.
   seq_alpha.extend(extended.iter().filter(|s| matches!(s, St::Dir { names, .. } if names.len() == 1 && std::str::from_utf8(&names[0].0).is_err())).take(2).cloned());
@@ -1648,9 +1673,13 @@ fn run_enumeration(args: &Args, root: &Path) -> i32 {
      routes (the writer route writes through the link). link -> link keeps the link and modifies the target (file -> file through \
      the link in place, otherwise the target is re-created directly); link <-> plain re-materialises. Two of them take part in the \
      sequences. No dangling links, chains or loops.", links.len())));
+  rep.set("future_mtime_states", json!({
+    "what": "third logical mtime T_FUTURE = start of the run + 1 day (whole seconds), set explicitly like T1 / T2; oracle as for T1 / T2 (the stamp is the mtime: untouched => consistent, different mtime => inconsistent). Base states: write-open, untouched, every ordered pair with every plain base / symlink / future state under all three checkers and routes.",
+    "states": futures.iter().map(|f| f.to_json()).collect::<Vec<_>>(), "T_FUTURE_unix_s": future_secs(),
+  }));
   rep.set("absent_under_open_writer", json!("the Absent state is reached under an open pie writer in three ways, each a route of its own for every checker (untouched, every pair with Absent as S1, sequences): remove_file(path); rename(path, sibling); hard_link(path, sibling) + remove_file(path). Oracle for all three: the writer stamp equals the path stamp of the absent path."));
   rep.set("path_replaced_under_open_writer_recorded_not_judged", replaced_probe);
-  rep.set("alphabet_states", json!({"plain_base": n_plain, "symlinks": links.len(), "base": plan.n_base, "extended_files": n_ext_files, "extended_dirs": n - plan.n_base - n_ext_files, "total": n}));
+  rep.set("alphabet_states", json!({"plain_base": n_plain, "symlinks": links.len(), "future_mtime": futures.len(), "base": plan.n_base, "extended_files": n_ext_files, "extended_dirs": n - plan.n_base - n_ext_files, "total": n}));
   rep.set("file_state_selection", json!(format!(
     "base: sizes {:?} with the base pattern and its last-byte / first-byte variants ({} contents) at both mtimes; extended: {} extra \
      contents at mtime T1 only: for every size class s all-zero, uniform 'x', periodic 16-byte lines (s bytes) and base content + 1 / 2 \
@@ -1663,8 +1692,8 @@ fn run_enumeration(args: &Args, root: &Path) -> i32 {
   rep.set("pair_units", json!(total.pair_units));
   rep.set("dir_state_selection", json!(format!(
     "base: every subset of <= {} names of the {} ASCII names ({} sets) at both mtimes; extended: every subset of <= {} of the \
-     {} accepted extra names within a group (dot-names .hidden / .a / ..x; all other extra names) plus every pair (one ASCII \
-     name, one extra name) ({} sets) at mtime T1 only. write-open and \
+     {} accepted extra names within a group (dot-names .hidden / .a / ..x; repetitions aa / aaa / aaaa; all other extra names) plus every pair (one ASCII \
+     name, one extra name; repetitions only with a) ({} sets) at mtime T1 only. write-open and \
      untouched run on every state. pair phase: base x base with all three checkers; a pair involving an extended directory \
      runs HashChecker only (names are observed by no other checker) against every extended directory, every base directory at \
      T1, Absent and the smallest file, in both orders. seq phase: base alphabet (quick: core alphabet) plus two non-UTF-8 \
@@ -1905,10 +1934,17 @@ mod test {
     assert!(Name::decode("a/b").is_err() && Name::decode("..").is_err() && Name::decode("%00").is_err() && Name::decode("").is_err());
     let k = extra.len();
     let dots = extra.iter().filter(|n| n.0[0] == b'.').count();
-    assert_eq!(dots, 3);
+    let reps = extra.iter().filter(|n| name_group(n) == 2).count();
+    assert_eq!((dots, reps), (3, 3));
     let sets = extra_name_sets(&extra);
     let c2 = |n: usize| n * (n - 1) / 2;
-    assert_eq!(sets.len(), k + c2(k - dots) + c2(dots) + k * NAME_POOL.len());
+    assert_eq!(sets.len(), k + c2(k - dots - reps) + c2(dots) + c2(reps) + (k - reps) * NAME_POOL.len() + reps);
+    {
+      // Equal cardinality, equal concatenation whatever the listing order, different name sets.
+      let mk = |n: &[&[u8]]| { let mut v: Vec<Name> = n.iter().map(|b| Name::new(b)).collect(); v.sort(); v };
+      assert!(sets.contains(&mk(&[b"a", b"aaaa"])) && sets.contains(&mk(&[b"aa", b"aaa"])));
+      assert_eq!(reference(Ck::Hash, &St::Dir { names: mk(&[b"a", b"aaaa"]), mt: 0 }, &St::Dir { names: mk(&[b"aa", b"aaa"]), mt: 0 }, false).0, Expect::Inconsistent);
+    }
     let distinct: BTreeSet<&Vec<Name>> = sets.iter().collect();
     assert_eq!(distinct.len(), sets.len());
     let base: BTreeSet<Vec<Name>> = name_sets().into_iter().collect();
@@ -1960,6 +1996,25 @@ mod test {
     assert!(St::from_json(&json!({"kind": "symlink", "target": links[0].to_json()})).is_err());
     assert_eq!(mask_wall_clock("Some(SystemTime { tv_sec: 1790000123, tv_nsec: 42 }) vs SystemTime { tv_sec: 1500000000, tv_nsec: 0 }"),
       "Some(SystemTime { tv_sec: <wall-clock> }) vs SystemTime { tv_sec: 1500000000, tv_nsec: 0 }");
+  }
+
+  #[test]
+  fn future_mtime_states() {
+    let fs = future_states();
+    assert_eq!(fs.len(), 4);
+    assert!(instant(MT_FUTURE) > SystemTime::now() + Duration::from_secs(80_000) && instant(MT_FUTURE) != instant(0) && instant(MT_FUTURE) != instant(1));
+    for f in &fs {
+      assert_eq!(f.mtime(), Some(MT_FUTURE));
+      assert_eq!(St::from_json(&f.to_json()).unwrap(), *f);
+      assert_eq!(reference(Ck::Modified, f, f, true).0, Expect::Consistent);
+      assert_eq!(reference(Ck::Modified, f, f, false).0, Expect::Consistent);
+      assert_eq!(reference(Ck::Modified, f, &St::Absent, false).0, Expect::Inconsistent);
+    }
+    let t1 = St::File { size: 0, var: Variant::Base, mt: 0 };
+    assert_eq!(reference(Ck::Modified, &fs[0], &t1, false).0, Expect::Inconsistent);
+    assert_eq!(reference(Ck::Modified, &t1, &fs[0], false).0, Expect::Inconsistent);
+    assert_eq!(reference(Ck::Hash, &fs[0], &t1, false).0, Expect::Consistent);
+    assert_eq!(reference(Ck::Exists, &fs[2], &t1, false).0, Expect::Consistent);
   }
 
   #[test]
